@@ -4,8 +4,11 @@ import AkVerif.Lemmas.Safe
 
 Theorems about the decoder models of `Model/Safe.lean` (helper lemmas: `Lemmas/Safe.lean`).
 
-* `Entry` enumerates the eight entry points (compiled and pure-Python `DefaultRecordBatch`,
-  `LegacyRecordBatch`, `MemoryRecords`, varint decoder); `Entry.ends e cfg codec crc b` is the list
+* `Entry` enumerates the ten entry points (compiled and pure-Python `DefaultRecordBatch`,
+  `LegacyRecordBatch`, `MemoryRecords` under BOTH of its drivers — `while has_next(): next_batch()`
+  (`cyM`/`pyM`) and `next_batch()` until it returns `None` (`cyN`/`pyN`; there `_get_next`'s own
+  "batch lies inside the buffer" test is the only guard of a trailing partial batch) — and the varint
+  decoder); `Entry.ends e cfg codec crc b` is the list
   of all ends reached while the entry point is constructed, optionally `validate_crc()`-ed and
   iterated to its end on the byte string `b` (for `MemoryRecords`: of the run and of every batch).
 * `Cfg.fixed mr` is the code after the seven `fix:` commits of this property; `mr` says whether
@@ -128,6 +131,12 @@ def xMixed : Bytes := [0, 0, 0, 0, 0, 0, 0, 3, 0, 0, 0, 26, 236, 233, 7, 135, 1,
 def xV2bad : Bytes := [0, 0, 0, 0, 0, 0, 0, 7, 0, 0, 0, 70, 0, 0, 0, 0, 2, 51, 229, 99, 239, 0, 0, 0, 0, 0, 1, 0, 0, 0, 0, 0, 0, 3, 232, 0, 0, 0, 0, 0, 0, 3, 232, 255, 255, 255, 255, 255, 255, 255, 255, 255, 255, 255, 255, 255, 255, 0, 0, 0, 2, 24, 0, 0, 0, 2, 107, 2, 118, 2, 2, 104, 2, 120, 14, 0, 10, 2, 1, 2, 119, 1]
 def xV1bad : Bytes := [0, 0, 0, 0, 0, 0, 0, 3, 0, 0, 0, 26, 236, 233, 7, 135, 1, 0, 0, 0, 0, 0, 0, 0, 0, 99, 0, 0, 0, 1, 107, 0, 0, 0, 3, 118, 97, 109]
 
+/-- a complete v1 message followed by the first 20 of the 28 bytes of a v0 message: the announced size
+    (12 + 16) fits the WHOLE buffer (58 bytes) but not what is left after the first batch (20) -/
+def xTrailing : Bytes := [0, 0, 0, 0, 0, 0, 0, 3, 0, 0, 0, 26, 236, 233, 7, 135, 1, 0, 0, 0, 0, 0, 0, 0, 0, 99, 0, 0, 0, 1, 107, 0, 0, 0, 3, 118, 97, 108, 0, 0, 0, 0, 0, 0, 0, 4, 0, 0, 0, 16, 59, 152, 107, 84, 0, 0, 255, 255]
+/-- a complete v1 message followed by 12 bytes announcing a message of 5 bytes -/
+def xTrailingShort : Bytes := [0, 0, 0, 0, 0, 0, 0, 3, 0, 0, 0, 26, 236, 233, 7, 135, 1, 0, 0, 0, 0, 0, 0, 0, 0, 99, 0, 0, 0, 1, 107, 0, 0, 0, 3, 118, 97, 108, 0, 0, 0, 0, 0, 0, 0, 9, 0, 0, 0, 5]
+
 def noCodec : Nat → Bytes → Option Bytes := fun _ _ => none
 /-- a codec that answers `u` whatever it is given (the decompressed payload is hostile too) -/
 def constCodec (u : Bytes) : Nat → Bytes → Option Bytes := fun _ _ => some u
@@ -157,6 +166,18 @@ example : ((cyMemory (Cfg.fixed true) noCodec true xMixed).1.map (fun o => (o.ki
       = [("L", some true, 1), ("D", some true, 2), ("L", some true, 1)] ∧
     (cyMemory (Cfg.fixed true) noCodec true xMixed).2 = .done ∧
     pyMemory (Cfg.fixed true) noCodec true xMixed = cyMemory (Cfg.fixed true) noCodec true xMixed := by
+  decide +kernel
+
+/-- `MemoryRecords` driven by `next_batch()` until `None`: same three batches; a trailing partial batch
+    whose announced size still fits the whole buffer ends the run (`None`) after the complete batch —
+    no slice is built for it; and the two drivers are different functions (a trailing length below 14:
+    `has_next()` says "no more", `next_batch()` raises) -/
+example : cyMemoryN (Cfg.fixed true) noCodec true xMixed = cyMemory (Cfg.fixed true) noCodec true xMixed ∧
+    ((cyMemoryN (Cfg.fixed true) noCodec true xTrailing).1.map (fun o => (o.kind, o.recs.length))) = [("L", 1)] ∧
+    (cyMemoryN (Cfg.fixed true) noCodec true xTrailing).2 = .done ∧
+    pyMemoryN (Cfg.fixed true) noCodec true xTrailing = cyMemoryN (Cfg.fixed true) noCodec true xTrailing ∧
+    (cyMemory (Cfg.fixed true) noCodec true xTrailingShort).2 = .done ∧
+    (cyMemoryN (Cfg.fixed true) noCodec true xTrailingShort).2 = .exc .corrupt := by
   decide +kernel
 
 /-- the hypothesis of `c10_crc_mismatch_detected` is met by a valid batch with its last byte flipped -/
